@@ -50,6 +50,29 @@ claim("C19", "model_checking",
       "Trusted: TLC; Python's os.path.normpath as file identity and sorted() as the order; the directory trees built by the harness.",
       "TLA+ Discovery spec (Select): exhaustive TLC enumeration replayed into the real scanner, CLI and API")
 
+claim("C17", "model_checking",
+      "spec/Config.tla defines Enabled / Item (most specific layer that mentions the setting wins; -d beats -e; an unacceptable value "
+      "falls back to the default, or is a configuration error in strict mode). TLC enumerates the COMPLETE lattice (3^4 file-layer "
+      "values x 4 command-line forms x default-enabled/-disabled = 648 points; 4^4 x strict = 512 item points), checks MostSpecificWins "
+      "and prints each resolution; each point is written as real configuration (pyproject.toml, .pymarkdown/.yaml/.yml, --config as "
+      "JSON/YAML/TOML, --set, -e/-d; rule addressed by id or alias; other layers absent or present with unrelated settings) and "
+      "compared with `plugins list`, `plugins info`, and a probe scan; every configurable item of every rule gets a wrongly typed "
+      "value at each layer, lenient and strict.",
+      "Trusted: TLC; the harness's writers for the configuration formats; parsing of the `plugins list` / `plugins info` tables.",
+      "TLA+ Config spec: complete lattice enumerated by TLC, replayed as real configuration layers")
+
+claim("C14", "model_checking",
+      "spec/Engine.tla gives the per-rule life-cycle automaton (start, every token in order up to end-of-stream, every line with exact "
+      "text and 1-based number, completion; disabled rules silent; all rules of a pass see the same stream; named deviations of fix "
+      "mode). MC_Engine explores every callback sequence the guards allow and checks that they imply complete, exactly-once service. "
+      "Seven recording plugins with different roles are loaded next to the built-in rules for file sequences (1-3 files, incl. empty, "
+      "one line, no final newline, pragma only, CRLF, unusual separators, failing files with --continue-on-error) in scan and fix mode; "
+      "each callback log is validated by TLC against Trace_Engine with token hashes and line texts computed independently from the "
+      "file's bytes. A self-test corrupts a log three ways and requires rejection.",
+      "Trusted: TLC; the recording plugins (documented plugin interface only); the harness's independent computation of the expected "
+      "stream (parser on the file's text, str.split for lines).",
+      "TLA+ Engine spec: TLC on the dispatch guards + batched trace validation of recorded callback logs")
+
 # ---------------------------------------------------------------------------------------------
 if __name__ == "__main__":
     props = [json.loads(l) for l in open("properties.jsonl")]
